@@ -80,4 +80,18 @@ PROPS = {
              'distinct = hash of the rendered tree; non-trivial = every tree.',
         exhaustive=dict(quick=False, thorough=False),
         assumptions=['reference dispatcher treegen.h/patref.h']),
+    'C06': dict(
+        level_text='Three runtime-monitoring engines on the real ThreadLink. (1) seq: random single-thread histories of write/writeArray/raw_write (sizes from far below to above MaxMsg, exact-fill frequent), read, hasNext, lookahead reads, on small rings, in lock-step with a reference FIFO model (one-slot-free rule, drop-whole rule, lookahead cursor resynchronised by a normal read), AddressSanitizer. (2) sched: two real threads run short writer/reader programs and hand over a baton at hooks placed before every load/store of the ring indices and every ring copy; ALL schedules with <=2 (quick) / <=3 (thorough, every 10th program) preemptions are enumerated per program pair, plus random schedules beyond the bound; because one thread runs at a time the model is updated exactly at the publishing/consuming stores, so hasNext results, accept/drop decisions, returned bytes and order are decided exactly; distinct interleavings are counted. (3) stress: free-running writer and reader under ThreadSanitizer with delays injected at the same hooks, flow-controlled (no loss allowed) and overflow (loss only where harness-side bounds on free space permit) regimes, unique sequence numbers and payloads derived from them.',
+        level_note='Interleavings are exhaustive only under the preemption bound and at hook granularity (a copy is one step); weak-memory reorderings are not modelled (indices are seq_cst; ThreadSanitizer covers happens-before). Trusts the reference model in harness/c06.cpp.',
+        technique='controlled-schedule enumeration (preemption bounding) + sequential model checking of histories + ThreadSanitizer stress with sequence-number oracle',
+        stages=[dict(harness='c06', variant='asan', mode='seq', quick=20000, thorough=1000000,
+                     need=['seq.write_accepted', 'seq.write_dropped_full', 'seq.write_dropped_oversize', 'seq.read', 'seq.read_lookahead', 'seq.ring_wrapped', 'seq.observed_empty']),
+                dict(harness='c06', variant='asan', mode='sched', quick=96, thorough=480, min_per_shard=1, case_timeout=300,
+                     need=['sched.executions', 'sched.distinct_interleavings', 'sched.executions_with_accepted_write']),
+                dict(harness='c06', variant='tsan', mode='stress', quick=6, thorough=20, min_per_shard=1, shards=6, case_timeout=600,
+                     need=['stress.flow_runs', 'stress.overflow_runs', 'stress.accept_must_checked', 'stress.drop_must_checked'])],
+        rule='seq: case = one operation history; sched: case = one writer/reader program pair, evaluations = controlled executions, distinct = distinct interleavings '
+             '(hash of the per-step thread sequence) measured by the scheduler; stress: case = one two-thread run, evaluations = messages written. non-trivial = every execution.',
+        exhaustive=dict(quick=False, thorough=False),
+        assumptions=['exhaustive only within the preemption bound and hook granularity', 'sequentially consistent atomics (no weak-memory modelling)']),
 }
